@@ -31,7 +31,7 @@ def windowNames (r : RollerCfg) : List Path := (List.range r.count).map (fun j =
 /-! ### executable specification of C07 on observed snapshots -/
 
 structure RollObs where
-  res : String              -- "ok" | "err" | "PANIC"
+  res : String              -- "ok" | "err" | "PANIC" | "HANG" (background rotation: the call never returned)
   snap : Disk
   /-- background rotation: no snapshot was taken after this roll (the rotation thread may still be
   running); the clauses are checked at the next snapshot, which is taken at quiescence -/
@@ -55,30 +55,55 @@ def frameOk (c : SpecCfg) (a b : Disk) : Bool := keeps c a b && noNew c a b
 def slotsOk (c : SpecCfg) (rolled : List Bytes) (snap : Disk) : Bool :=
   (c.names.zip rolled).all (fun (nm, x) => snap.get? nm = some x)
 
-/-- older slots only hold what was in the window initially -/
-def olderOk (c : SpecCfg) (init : List Bytes) (nRolled : Nat) (snap : Disk) : Bool :=
-  (c.names.drop nRolled).all (fun nm => match snap.get? nm with
-    | none => true
-    | some v => init.contains v)
+/-- `xs` is a subsequence of `ys` (greedy matching) -/
+def isSubseq : List Bytes → List Bytes → Bool
+  | [], _ => true
+  | _ :: _, [] => false
+  | x :: xs, y :: ys => if x = y then isSubseq xs ys else isSubseq (x :: xs) ys
 
-/-- `none` = the statement holds on this history; `some clause` = first violated clause -/
-def checkRolls (c : SpecCfg) (initWin : List Bytes) :
-    Disk → List Bytes → List (Option Bytes × RollObs) → Option String
-  | _, _, [] => none
-  | prev, rolled, (x, o) :: rest =>
+/-- older slots only hold what was in the window initially, and in the initial relative age order:
+read in index order, the contents of the older slots are a subsequence of the initial window (also
+read in index order) — "index b+j holds the (j+1)-th most recent" leaves no room for an older
+archive overtaking a younger one -/
+def olderOk (c : SpecCfg) (init : List Bytes) (nRolled : Nat) (snap : Disk) : Bool :=
+  isSubseq ((c.names.drop nRolled).filterMap (fun nm => snap.get? nm)) init
+
+/-- every window name holds in `b` exactly what it held in `a` -/
+def windowSame (c : SpecCfg) (a b : Disk) : Bool :=
+  c.names.all (fun nm => b.get? nm = a.get? nm)
+
+/-- `none` = the statement holds on this history; `some clause` = first violated clause.
+`stale`: rolls without a snapshot (background rotation) have happened since `prev` was taken, so the
+window of `prev` is no longer the expected one (the frame clauses still compare with `prev`: they
+exempt the window names and the log path). -/
+def checkRollsAux (c : SpecCfg) (initWin : List Bytes) :
+    Bool → Disk → List Bytes → List (Option Bytes × RollObs) → Option String
+  | _, _, _, [] => none
+  | stale, prev, rolled, (x, o) :: rest =>
     if o.res = "PANIC" then some "roll panicked"
+    else if o.res = "HANG" then some "roll never returned"
     else match x with
     | none =>
-      -- nothing to roll: only the frame clauses are meaningful; the history ends here
-      if !frameOk c prev o.snap then some "bystander changed (roll of a missing file)" else none
+      -- nothing to roll: no file was rolled, so the window still holds the newest `count` rolled
+      -- files exactly as before (whatever result the roller reports), nothing else changes, and
+      -- the history goes on
+      if o.snapless then checkRollsAux c initWin stale prev rolled rest
+      else if !slotsOk c rolled o.snap || !olderOk c initWin rolled.length o.snap ||
+          (!stale && !windowSame c prev o.snap) then some "roll of a missing file changed the window"
+      else if !frameOk c prev o.snap then some "bystander changed (roll of a missing file)"
+      else checkRollsAux c initWin false o.snap rolled rest
     | some x =>
       let rolled' := x :: rolled
       if o.res ≠ "ok" then some "roll failed"
-      else if o.snapless then checkRolls c initWin prev rolled' rest
+      else if o.snapless then checkRollsAux c initWin true prev rolled' rest
       else if o.snap.has c.file then some "rolled file still at its path"
       else if !slotsOk c rolled' o.snap then some "slot b+j does not hold the (j+1)-th most recent file"
-      else if !olderOk c initWin rolled'.length o.snap then some "older slot holds foreign content"
+      else if !olderOk c initWin rolled'.length o.snap then some "older slots hold foreign content or are out of age order"
       else if !frameOk c prev o.snap then some "file outside the window created, modified or removed"
-      else checkRolls c initWin o.snap rolled' rest
+      else checkRollsAux c initWin false o.snap rolled' rest
+
+def checkRolls (c : SpecCfg) (initWin : List Bytes) (prev : Disk) (rolled : List Bytes)
+    (h : List (Option Bytes × RollObs)) : Option String :=
+  checkRollsAux c initWin false prev rolled h
 
 end Log4rs.Roller
